@@ -18,6 +18,10 @@ def ListT(e): return Ty('list', e)       # reference to a list object
 def TupT(ts): return Ty('tuple', tuple(ts))
 IARR = Ty('iarr')                        # ghost: Int -> Int array value
 
+def ltag(ty):
+    if ty is not None and ty.kind == 'dict': return 'list:dict[' + repr(ty.arg) + ']'
+    return 'list:' + (repr(ty.arg) if ty is not None and ty.kind == 'list' else '?')
+
 class SV:
     """symbolic value: z3 term (or python tuple of SV for tuples) + static type"""
     def __init__(s, t, ty): s.t, s.ty = t, ty
@@ -44,6 +48,9 @@ def parse_ann(node, tv):
         base = node.value.id if isinstance(node.value, ast.Name) else node.value.attr
         if base == 'Optional': return parse_ann(node.slice, tv)
         if base in ('list', 'Sequence', 'Iterable', 'Iterator', 'List'): return ListT(parse_ann(node.slice, tv))
+        if base == 'dict' and isinstance(node.slice, ast.Tuple) and len(node.slice.elts) == 2 and parse_ann(node.slice.elts[0], tv) == INT:
+            v_ = node.slice.elts[1]
+            if not (isinstance(v_, ast.Name) and v_.id == 'Any'): return Ty('dict', parse_ann(v_, tv))     # dict[int, V]: a total map Int -> V, 0 = absent (values are non-null references)
         if base == 'tuple':
             elts = node.slice.elts if isinstance(node.slice, ast.Tuple) else [node.slice]
             if any(isinstance(x, ast.Constant) and x.value is Ellipsis for x in elts): return ListT(parse_ann(elts[0], tv))
@@ -188,7 +195,7 @@ class Exec:
         st.heap.m[key] = Store(s.hget(st.heap, key, ty), obj, val)
     def lkeys(s, x):
         ty = x.ty if isinstance(x, SV) else x
-        tag = 'list:' + (repr(ty.arg) if ty is not None and ty.kind == 'list' else '?')
+        tag = ltag(ty)
         return (tag, 'len'), (tag, 'elem')
     def lterm(s, x): return x.t if isinstance(x, SV) else x
     def llen(s, heap, x, ty=None):
@@ -396,6 +403,10 @@ class Exec:
         o = s.ev(st, e.value)
         if o.ty.kind == 'tuple':
             k = e.slice.value; return o.t[k]
+        if o.ty.kind == 'dict':
+            k_ = s.ev(st, e.slice); arr = s.lelem(st.heap, o)
+            s.oblige(st, f'key-present[{ast.unparse(e)}]@{e.lineno}', Select(arr, k_.t) != 0, 'safety')
+            return SV(Select(arr, k_.t), o.ty.arg)
         if o.ty.kind != 'list': raise Unsupported(f'subscript on {o.ty}')
         n = s.llen(st.heap, o); arr = s.lelem(st.heap, o)
         if isinstance(e.slice, ast.Slice):
@@ -515,6 +526,10 @@ class Exec:
                 v = s.ev(st, e.args[0])
                 if v.ty.kind == 'tuple' and len(v.t) == 2: return SV(s.spec.ufuns['str_hash'][0](v.t[0].t, v.t[1].t), INT)
                 raise Unsupported('hash of a non-pair')
+            if n == 'id' and len(e.args) == 1 and 'id' not in st.env:
+                v = s.ev(st, e.args[0])
+                if v.ty.kind not in ('ref', 'list', 'dict'): raise Unsupported('id() of a value')
+                return SV(v.t, INT)          # id(x): the reference itself (injective on live objects)
             if n in ('min', 'max') and len(e.args) == 2:
                 a_, b_ = s.ev(st, e.args[0]), s.ev(st, e.args[1])
                 if a_.ty == INT and b_.ty == INT: return SV(If(a_.t <= b_.t, a_.t, b_.t) if n == 'min' else If(a_.t >= b_.t, a_.t, b_.t), INT)
@@ -913,7 +928,9 @@ class Exec:
         """'Class.f' | 'Class.f@expr' | 'list' | 'list[T]' | 'list[T]@expr' | '*'  ->  (key pattern, receiver source or None)"""
         recv = None
         if '@' in pat: pat, recv = pat.split('@', 1)
-        if pat.startswith('list['):
+        if pat.startswith('dict['):
+            pat = 'list:dict[' + repr(Ref(pat[5:-1])) + ']'
+        elif pat.startswith('list['):
             inner = pat[5:-1]; ty = {'int': INT, 'bool': BOOL, 'str': STR}.get(inner) or (ListT(Ref(inner[5:-1])) if inner.startswith('list[') else Ref(inner))
             pat = 'list:' + repr(ty)
         return pat, recv
@@ -1076,6 +1093,10 @@ class Exec:
                 try: ty = parse_ann(n.annotation, s.p.tv)
                 except Exception: ty = None
             if ty is not None and ty.kind == 'list': v = s.new_list(st, ty, IntVal(0), lambda k: IntVal(0))
+        if isinstance(n.value, ast.Dict) and not n.value.keys:
+            ty = parse_ann(n.annotation, s.p.tv)
+            if ty.kind != 'dict': raise Unsupported('dict literal of an unmodelled type')
+            d_ = s.alloc(st, 'dict'); s.set_list(st, d_, IntVal(0), K(I, IntVal(0)), ty); v = SV(d_, ty)
         s.assign(st, n.target, v if v is not None else s.ev(st, n.value)); yield st
     def st_Assign(s, st, n, ctx):
         lt = getattr(s.spec.contracts.get(ctx.q), 'local_types', {}) if s.spec.contracts.get(ctx.q) else {}
@@ -1102,6 +1123,10 @@ class Exec:
             raise Unsupported(f'assign attr {cls}.{t.attr}')
         if isinstance(t, ast.Subscript):
             o = s.ev(st, t.value); n = s.llen(st.heap, o); arr = s.lelem(st.heap, o)
+            if o.ty.kind == 'dict':
+                k_ = s.ev(st, t.slice)
+                s.oblige(st, f'dict-value-nonnull[{ast.unparse(t)}]@{t.lineno}', v.t != 0, 'safety')       # engine restriction: 0 encodes 'absent'
+                na = fresh('arr', IA); st.defs.append(na == Store(arr, k_.t, v.t)); s.set_list(st, o, n, na); return
             if isinstance(t.slice, ast.Slice):
                 lo = s.clamp(s.ev(st, t.slice.lower).t, n) if t.slice.lower else IntVal(0)
                 hi = s.clamp(s.ev(st, t.slice.upper).t, n) if t.slice.upper else n
@@ -1116,6 +1141,7 @@ class Exec:
         for t in n.targets:
             if isinstance(t, ast.Subscript) and isinstance(t.slice, ast.Slice):
                 empty = s.new_list(st, ListT(INT), IntVal(0), lambda k: IntVal(0)); s.assign(st, t, empty)
+            elif isinstance(t, ast.Name): st.env = dict(st.env); st.env.pop(t.id, None)
             else: raise Unsupported('del')
         yield st
     def has_iadd(s, ty): return ty.kind == 'ref' and ty.arg in s.p.classes and s.p.method(ty.arg, '__iadd__')[1] is not None
@@ -1173,6 +1199,8 @@ class Exec:
                 if isinstance(f, ast.Attribute) and f.attr in ('append', 'extend', 'pop', 'insert', 'clear'): add('list', f.value)
                 nm = f.attr if isinstance(f, ast.Attribute) else (f.id if isinstance(f, ast.Name) else None)
                 if nm in s.p.classes: heap.add(('fresh', nm))
+                for c_ in getattr(s.spec.builtins.get(ast.unparse(f)), 'fresh_classes', ()):
+                    if c_ in s.p.classes: heap.add(('fresh', c_))
                 cands = [(c, m) for c in s.p.classes for m in s.p.classes[c].methods.get(nm, [])] + ([(None, s.p.funcs[nm])] if nm in s.p.funcs else [])
                 if isinstance(f, ast.Attribute) and isinstance(f.value, ast.Name) and f.value.id in s.p.classes:
                     cands = [(c, m) for c, m in cands if c in s.p.mro(f.value.id)]
@@ -1219,7 +1247,7 @@ class Exec:
                 try:
                     old_mode, s.specmode = getattr(s, 'specmode', False), True
                     rt = (probe or st).env['$out'].ty if recv == '$out' else s.ev((probe or st).fork(), ast.parse(recv, mode='eval').body).ty
-                    if rt.kind == 'list': pats = ['list:' + repr(rt.arg)]
+                    if rt.kind in ('list', 'dict'): pats = [ltag(rt)]
                 except Exception: pass
                 finally: s.specmode = old_mode
             if pat.startswith('*.'):
